@@ -98,7 +98,8 @@ def jobs(tier):
     add(N + 'nb_pool_merge', dict(d=1, pool=2, unroll=3, open_uniform=True),
         block=B, max_paths=6000)
     if thorough:
-        add(U + 'sample', dict(d=2, npm=3, sizes=[3, 3, 3], n=2, cache=1))
+        add(U + 'sample', dict(d=2, npm=3, sizes=[3, 3], n=2, cache=1),
+            block=1, max_paths=20000)
         add(N + 'nb_sample', dict(d=1, n=1, cache=0, pool=2, unroll=8,
                                   members_in_cube=True, open_uniform=True),
             block=B, max_paths=30000)
